@@ -1,6 +1,7 @@
 """C04 — automatic edge IDs are always fresh; adding never overwrites."""
 from .. import dhg as MD
 from .. import hg as MH
+from ..c04_conv import run_conv
 from ..c04_prov import run_provenance
 from ..core import TRUSTED_COMMON, build_and_audit, finish
 from ..fn import conclude
@@ -70,8 +71,8 @@ def pred_dhg(snap, op, prev, exc):
 def run(ctx):
     # Props/C04D.lean: the same theorems on the directed model (KeepsD, C04D_*), audited with this property
     # Props/C04S.lean: the same theorems on the simplicial model (C03/SC.lean; HG.Keeps, C04S_*), audited with this property
-    ok = build_and_audit(ctx, "XgiModel.Props.C04", ["XgiModel.Drive.HG", "XgiModel.Props.C04D", "XgiModel.Props.C04S"],
-                         audit_extra=("XgiModel.Props.C04D", "XgiModel.Props.C04S"))
+    ok = build_and_audit(ctx, "XgiModel.Props.C04", ["XgiModel.Drive.HG", "XgiModel.Props.C04D", "XgiModel.Props.C04S", "XgiModel.Props.C04P"],
+                         audit_extra=("XgiModel.Props.C04D", "XgiModel.Props.C04S", "XgiModel.Props.C04P"))
     ctx.rule = ("(a) add-heavy histories on xgi.Hypergraph (explicit ids incl. 0 / decreasing / strings, automatic ids, removals, "
                 "merges, relabelling) compared with the model on (outcome, edge ids in order, members, edge attrs, counter); "
                 "(b) provenance x additions on all three classes: every constructor input type, from_* converter, read_* function (real "
@@ -85,9 +86,11 @@ def run(ctx):
         ctx.broken.append("lake build XgiModel.C02.Drive failed")
     dis_d, hist_d = run_sm(ctx, MD, "DHG", FIELDS_D, pred_dhg, ctx.n(120, 5000), weights=WEIGHTS_D, model_ok=ok_d,
                            corr_name="correspondence DHG~DiHypergraph (edge table + counter)")
-    dis = list(dis) + list(dis_d)
+    # Props/C04P.lean: converters / copy / dual as compositions of public calls (Core/HGConv.lean), tied here
+    dis_c = run_conv(ctx, ctx.n(150, 3000)) if ok else []
+    dis = list(dis) + list(dis_d) + list(dis_c)
     run_provenance(ctx, ctx.n(600, 20000))
-    conclude(ctx, ok and ok_d, dis, search=lambda: (targeted_search(ctx, MH, pred_hg, [d for d in dis if d not in dis_d], hist, n=ctx.n(1500, 20000)),
+    conclude(ctx, ok and ok_d, dis, search=lambda: (targeted_search(ctx, MH, pred_hg, [d for d in dis if d not in dis_d and d not in dis_c], hist, n=ctx.n(1500, 20000)),
                                                     targeted_search(ctx, MD, pred_dhg, dis_d, hist_d, n=ctx.n(800, 10000)),
                                                     run_provenance(ctx, ctx.n(1500, 20000))))
     ctx.assumptions = ["IDs restricted to int/str/tuple; numpy integer ids are converted by the library itself",
@@ -109,4 +112,7 @@ def replay(ctx, path):
             return 1
         print(f"replay {path}: not reproduced on the current tree")
         return 0
+    if "derive" in j.get("case", {}):
+        from ..c04_conv import replay_conv
+        return replay_conv(ctx, j["case"], path)
     return replay_sm(ctx, MH, "HG", FIELDS, pred_hg, path)
